@@ -143,8 +143,12 @@ func Scratch(t testing.TB) string {
 
 // ---------------------------------------------------------------- statistics
 
+// maxHashes bounds the per-process set of distinct non-trivial case hashes.
+const maxHashes = 400000
+
 type Rec struct {
 	mu          sync.Mutex
+	ntOverflow  int
 	Prop, Sub   string
 	evaluations int
 	classes     map[string]int
@@ -186,6 +190,12 @@ func (r *Rec) Case(key any, info Info, sample any) {
 		r.classes[c]++
 	}
 	if info.NonTrivial {
+		if len(r.nt) >= maxHashes {
+			// beyond the cap non-trivial cases are counted but no longer de-duplicated; the
+			// driver then reports only the de-duplicated part (a lower bound)
+			r.ntOverflow++
+			return
+		}
 		hk := hashOf(key)
 		if _, ok := r.nt[hk]; !ok {
 			r.nt[hk] = struct{}{}
@@ -242,7 +252,7 @@ func (r *Rec) Flush() {
 		"property": r.Prop, "sub": r.Sub, "rule": r.rule, "evaluations": r.evaluations,
 		"classes": r.classes, "nontrivial_hashes": hs, "samples": r.samples, "extra": r.extra,
 		"completed": r.completed, "exhaustive": r.exhaustive, "wall_s": time.Since(r.start).Seconds(),
-		"shard": sh, "seed": Seed(), "tier": Tier(),
+		"shard": sh, "seed": Seed(), "tier": Tier(), "nontrivial_not_deduplicated": r.ntOverflow,
 	}
 	b, _ := json.Marshal(doc)
 	name := fmt.Sprintf("%s.%s.%d.%d.json", r.Prop, r.Sub, sh, os.Getpid())
